@@ -791,6 +791,44 @@ def toSexp : Query → String
   | .multi ps l => "(cypher.RegularQuery (SingleQuery (cypher.SingleQuery (SinglePartQuery nil) (MultiPartQuery (cypher.MultiPartQuery (Parts " ++
       sxList (ps.map sxPart) ++ ") (SinglePartQuery " ++ sxSinglePart l ++ "))))))"
 
+/-! ### strconv.FormatFloat(v,'f',-1,64) + ".0" for integral values (format.formatFloatLiteral), from the literal's text.
+Exact whenever the literal has at most 15 significant digits (every such decimal survives the round trip through float64,
+so the shortest representation Go prints is the literal's own digits); `none` otherwise. -/
+
+def stripLeadingZeros : List Char → List Char
+  | '0' :: rest => stripLeadingZeros rest
+  | cs => cs
+def stripTrailingZeros (cs : List Char) : List Char := (stripLeadingZeros cs.reverse).reverse
+
+def fmtFloat (text : String) : Option String :=
+  let cs := text.toList
+  let mant := cs.takeWhile (fun c => c != 'e' && c != 'E')
+  let expPart := (cs.dropWhile (fun c => c != 'e' && c != 'E')).drop 1
+  let ip := mant.takeWhile (· != '.')
+  let fp := (mant.dropWhile (· != '.')).drop 1
+  let (neg, ed) := match expPart with
+    | '-' :: ds => (true, ds)
+    | ds => (false, ds)
+  if !(ip.all isDigit) || !(fp.all isDigit) || !(ed.all isDigit) || ed.length > 3 then none else
+  let e : Nat := ed.foldl (fun a c => a * 10 + (c.toNat - 48)) 0
+  let all := ip ++ fp
+  let sig := stripTrailingZeros (stripLeadingZeros all)
+  if sig.length > 15 || e > 40 then none else
+  -- position of the decimal point inside `all`, counted from the left
+  let (intDigits, fracDigits) :=
+    if neg then
+      if e ≥ ip.length then ([], List.replicate (e - ip.length) '0' ++ all)
+      else (ip.take (ip.length - e), ip.drop (ip.length - e) ++ fp)
+    else
+      if e ≥ fp.length then (all ++ List.replicate (e - fp.length) '0', [])
+      else (ip ++ fp.take e, fp.drop e)
+  let i := match stripLeadingZeros intDigits with | [] => ['0'] | ds => ds
+  let f := match stripTrailingZeros fracDigits with | [] => ['0'] | ds => ds
+  some (String.ofList (i ++ ['.'] ++ f))
+
+/-- marker token for a float the model cannot format (the harness then skips the text comparison) -/
+def unknownFloat : String := "<float?>"
+
 /-! ### emit: format.go as a token list (whitespace is not a token; the harness joins with the emitter's spacing rules) -/
 
 def escapeKeyTok (k : String) : String :=
@@ -814,7 +852,7 @@ def eExpr : Nat → Expr → List String
   | f + 1, e =>
     match e with
     | .lit (.int v) => [toString v]
-    | .lit (.float t) => [t]                      -- strconv.FormatFloat(v,'f',-1,64): not modelled, the source text stands in
+    | .lit (.float t) => [(fmtFloat t).getD unknownFloat]
     | .lit (.bool b) => [toString b]
     | .lit (.str q) => [q]
     | .lit .null => ["null"]
@@ -822,15 +860,15 @@ def eExpr : Nat → Expr → List String
     | .param s => ["$", s]
     | .prop a s => eExpr f a ++ [".", escapeKeyTok s]
     | .kindMatcher r ks =>
-      let one (k : String) := eExpr f r ++ [":", k]
-      if ks.length > 1 then ["("] ++ sepBy "or" (ks.map one) ++ [")"] else (ks.map one).flatten
+      -- parser-built matchers are exclusive (all-of): `ref:A:B`; a single kind `ref:A`; no kind prints nothing
+      if ks.isEmpty then [] else eExpr f r ++ (ks.map (fun k => [":", k])).flatten
     | .fn d ns n args => [".".intercalate ns ++ n, "("] ++ (if d then ["distinct"] else []) ++ commaSep (args.map (eExpr f)) ++ [")"]
     | .star => ["*"]
     | .paren x => ["("] ++ eExpr f x ++ [")"]
-    | .neg x => "not" :: eExpr f x
-    | .conj es => sepBy "and" (es.map (eExpr f))
+    | .neg x => "not" :: eOperand f x 4
+    | .conj es => sepBy "and" (es.map (fun x => eOperand f x 2))
     | .disj es => sepBy "or" (es.map (eExpr f))
-    | .xdisj es => sepBy "xor" (es.map (eExpr f))
+    | .xdisj es => sepBy "xor" (es.map (fun x => eOperand f x 1))
     | .cmp l ps => eExpr f l ++ (ps.map (fun p => p.1 :: eExpr f p.2)).flatten
     | .arith l ps => eExpr f l ++ (ps.map (fun p => p.1 :: eExpr f p.2)).flatten
     | .unary op r => op :: eExpr f r
@@ -839,6 +877,17 @@ def eExpr : Nat → Expr → List String
     | .quant ty v c w => [ty, "(", v, "in"] ++ eExpr f c ++ (match w with | some x => "where" :: eExpr f x | none => []) ++ [")"]
     | .patPred els => ePatEls f els
     | .nil => []
+/-- format.writeOperand: parenthesise an operand that binds looser than the operator it is written under (or < xor < and < not) -/
+def eOperand : Nat → Expr → Nat → List String
+  | 0, _, _ => ["?"]
+  | f + 1, e, prec =>
+    let looser : Bool := match e with
+      | .disj _ => decide (prec > 0)
+      | .xdisj _ => decide (prec > 1)
+      | .conj _ => decide (prec > 2)
+      | .neg _ => decide (prec > 3)
+      | _ => false
+    if looser then ["("] ++ eExpr f e ++ [")"] else eExpr f e
 def ePatEls : Nat → List PatEl → List String
   | 0, _ => ["?"]
   | _ + 1, [] => []
